@@ -12,6 +12,7 @@
            we@<off>+<len>=ins|other|err             decode_wal_entry of that range
            lexro=fallback / lexrw=fallback          the handle's Tantivy engine came up empty
            footer=<off>|none                        find_last_valid_footer (cross-check of the model's finder)
+           legacy@<off>=same|<TOC>                  scan_range_for_toc recognises a pre-footer TOC image there
          answer: one status per observation group, for the read-only and the writable open:
            same | err | diff | any      (`any` = decided by a black box the model does not contain)
          plus `verify=passed|failed|err`, `tags=<mechanisms>` (checks NOT performed that this
@@ -86,6 +87,8 @@ structure Facts where
   lexro : Bool := false
   lexrw : Bool := false
   footer : Option (Option Nat) := none
+  /-- `scan_range_for_toc` found a pre-footer style TOC image at this offset -/
+  legacy : Option (Nat × Option (Option MToc)) := none
   bad : List String := []
 
 def addFact (f : Facts) (tok : String) : Facts :=
@@ -101,6 +104,13 @@ def addFact (f : Facts) (tok : String) : Facts :=
           else if v == "same" then { f with tocs := (r, some none) :: f.tocs }
           else match parseToc v with
             | some t => { f with tocs := (r, some (some t)) :: f.tocs }
+            | none => { f with bad := tok :: f.bad }
+        | none => { f with bad := tok :: f.bad }
+      | ["legacy", o] => match o.toNat? with
+        | some o =>
+          if v == "same" then { f with legacy := some (o, some none) }
+          else match parseToc v with
+            | some t => { f with legacy := some (o, some (some t)) }
             | none => { f with bad := tok :: f.bad }
         | none => { f with bad := tok :: f.bad }
       | ["uz", r] => match parseRange r with
@@ -185,7 +195,11 @@ def mkCodecs (st : St) (file : Bytes) (fx : Facts) (hc : List (Bytes × Bytes)) 
       match (findRange file fx.wes b).orElse (fun _ => findRange st.orig st.base.wes b) with
       | some r => r
       | none => some true
-    legacyToc := fun _ _ => none }
+    legacyToc := fun _ _ =>
+      match fx.legacy with
+      | some (o, some none) => st.origToc.map (fun t => (t, o))
+      | some (o, some (some t)) => some (t, o)
+      | _ => none }
 
 /-! ### comparison of the two handles -/
 
@@ -219,14 +233,19 @@ def compareHandles (C0 C1 : Codecs) (k : Checks) (p : String) (h0 : Handle) (r1 
     let metasSame := metaSt.all (· == "same") && o1.rest == o0.rest
     let paysSame := paySt.all (· == "same")
     let countSame := o1.count == o0.count
+    -- after a WAL replay the TOC, the indexes and the memories track have been rebuilt: nothing else is predicted
+    let rp := h1.replayed > 0
+    let anyIf := fun (l : List String) => if rp then l.map (fun _ => "any") else l
+    let paySt := anyIf paySt
+    let metaSt := anyIf metaSt
     let clean := metasSame && paysSame && countSame
     let timeSt := match o1.time with
-      | .error _ => "err"
+      | .error _ => if rp then "any" else "err"
       | .ok t1 => if (match o0.time with | .ok t0 => t0 == t1 | .error _ => false) && clean then "same" else "any"
     let searchSt := if clean && o1.lex == o0.lex && o1.sketch == o0.sketch then "same" else "any"
     let vecSt := if o1.vec == o0.vec && countSame then "same" else "any"
     let embSt := if o1.vec == o0.vec && countSame then "same"
-                 else if o1.vec == .fallback && o0.vec != .fallback then "diff" else "any"
+                 else if o1.vec == .fallback && o0.vec != .fallback && !rp then "diff" else "any"
     let cardsSt := if o1.memories == o0.memories && countSame then "same" else "any"
     let textSt := (List.range n).map fun i =>
       if metaSt[i]? == some "same" && paySt[i]? == some "same" then "same" else "any"
